@@ -4,6 +4,7 @@
 import PyModeS.Proofs.Enum
 import PyModeS.Proofs.Hex
 import PyModeS.Spec.Fields
+import PyModeS.Proofs.CRC.Icao
 namespace PyModeS.C08
 open Spec
 
@@ -82,5 +83,51 @@ theorem capability_frame (bits : Bits) (h : 8 ≤ bits.length) :
 
 /-- non-vacuity: frames from tests/ -/
 example : idcodeB (hex2bin "2A00516D492B80") = .val [0, 3, 5, 6] := by decide +kernel
+
+/-! ### DF11 interrogator code (`allcall.interrogator`) -/
+
+/-- the label printed for a 7-bit CL‖IC code -/
+def icLabel (code : Nat) : String :=
+  if code > 79 then "corrupt IC" else if code < 16 then "II" ++ toString code
+  else "SI" ++ toString (code - 16)
+
+/-- If the last 24 bits of an all-call reply are `parity(data) XOR code` (PI field, Annex 10
+    3.1.2.3.3.2: the interrogator code overlaid on the parity), `interrogator` returns the label
+    of exactly that code; every other DF is rejected with RuntimeError.  Holds for any whole number
+    ≥ 3 of bytes (a DF11 frame has 7); `code < 128` is not needed (the hypothesis forces
+    `code < 2^24`, and everything above 79 is reported as corrupt). -/
+theorem interrogator_spec (bits : Bits) (code : Nat) (h8 : bits.length % 8 = 0)
+    (h24 : 24 ≤ bits.length)
+    (hpi : bin2int (takeLast 24 bits) =
+      Spec.remH (dropLast 24 bits ++ List.replicate 24 false) ^^^ code) :
+    interrogator bits = if dfB bits = 11 then .val (icLabel code) else .rte := by
+  unfold interrogator allcallGuard
+  rw [CRC.crcBitsPy_code bits code h8 h24 hpi]
+  unfold icLabel
+  by_cases h : dfB bits = 11
+  · simp only [h, ne_eq, not_true_eq_false, if_false, if_true]
+    split
+    · rfl
+    · split <;> rfl
+  · simp [h]
+
+/-- the hypothesis is satisfiable for every payload and every code: the encoded frame
+    `data ++ (parity(data) xor code)` has the PI property -/
+theorem interrogator_encoder (d : Bits) (code : Nat) (hc : code < 2 ^ 24)
+    (h8 : d.length % 8 = 0) (h5 : 5 ≤ d.length) :
+    interrogator (d ++ natToBits 24 (Spec.remH (d ++ List.replicate 24 false) ^^^ code)) =
+      if dfB d = 11 then .val (icLabel code) else .rte := by
+  have hs := CRC.frame_field_spec d code hc
+  simp only at hs
+  rw [interrogator_spec _ code (by simp; omega) (by simp) hs.2, CRC.dfB_append d _ h5]
+
+/-- real DF11 reply: PI = parity xor 22 (CL=1, IC=6), i.e. "SI6"; its DF bits are 01011 -/
+example : let bits := hex2bin "5D484FDEA248F5"
+    bits.length % 8 = 0 ∧ 24 ≤ bits.length ∧ dfB bits = 11 ∧
+    bin2int (takeLast 24 bits) = Spec.remH (dropLast 24 bits ++ List.replicate 24 false) ^^^ 22 ∧
+    icLabel 22 = "SI6" ∧ interrogator bits = .val "SI6" := by decide +kernel
+example : icLabel 0 = "II0" ∧ icLabel 15 = "II15" ∧ icLabel 16 = "SI0" ∧ icLabel 79 = "SI63" ∧
+    icLabel 80 = "corrupt IC" ∧ interrogator (hex2bin "8D406B902015A678D4D220AA4BDA") = .rte := by
+  decide +kernel
 
 end PyModeS.C08
